@@ -50,11 +50,13 @@ def stepLabelsAux (periods durations : List Int) : List Int → Nat → Nat → 
 def stepLabels (pts : List Int) (periods durations : List Int) : List (Nat × Nat × Nat) :=
   stepLabelsAux periods durations pts 0 0 0
 
-/-- `durations` when `freq_duration is None`: `[tp[0], tp[-1] + (tp[-1] - tp[0])]` -/
-def wholeDuration (pts : List Int) : List Int :=
-  match pts.head?, pts.getLast? with
-  | some a, some z => [a, z + (z - a)]
-  | _, _ => []
+/-- `durations` when `freq_duration is None`: `[tp[0], timegrid.end + (timegrid.end - tp[0])]` — the second
+    entry lies after the first point also on a grid with a single step (the former `tp[-1] + (tp[-1] - tp[0])`
+    did not: repaired finding F-13l) -/
+def wholeDuration (pts : List Int) (gridEnd : Int) : List Int :=
+  match pts.head? with
+  | some a => [a, gridEnd + (gridEnd - a)]
+  | none => []
 
 /-! ## part (2): merging variables -/
 
@@ -215,9 +217,10 @@ def extendRow (cg : CoarseGrid) (dtFine : List Rat) (r : MapRow) : List MapRow :
   | none => []
   | some i => extendSteps dtFine (cg.grid.dt.getD i 0) r (cg.minor.getD i [])
 
-/-- all look-ups of the loop are defined -/
+/-- all look-ups of the loop are defined (an empty mapping - the asset is not active in the horizon - has no
+    look-up and is returned as it is: `if len(mymap) == 0: return mymap`) -/
 def extendOK (M : List MapRow) (cg : CoarseGrid) (dtFine : List Rat) : Bool :=
-  !M.isEmpty && M.all fun r =>
+  M.all fun r =>
     match majorOf cg r with
     | none => false
     | some i => decide (i < cg.minor.length) && decide (i < cg.grid.dt.length) &&
@@ -227,8 +230,8 @@ inductive ExtendError | index
   deriving Repr, DecidableEq, Inhabited
 
 /-- one output row per mapping row and minor step, in the order of the two loops.  `IndexError`/`KeyError`
-    (a step that is not a coarse step, a minor index outside the fine grid, an empty mapping — the final
-    `mapping['time_step']` then fails) are one error class. -/
+    (a step that is not a coarse step, a minor index outside the fine grid) are one error class.  An empty
+    mapping gives the empty mapping (it used to fail at the final `mapping['time_step']`). -/
 def extendMinor (M : List MapRow) (cg : CoarseGrid) (dtFine : List Rat) : Except ExtendError (List MapRow) :=
   if extendOK M cg dtFine then .ok (M.flatMap (extendRow cg dtFine)) else .error .index
 
